@@ -40,6 +40,7 @@ type sessState struct {
 	Ready      bool `json:"ready"`
 	Verified   bool `json:"verified"`
 	Closed     bool `json:"closed"`
+	Deaf       bool `json:"deaf"`
 	HsComplete bool `json:"hsComplete"`
 }
 
@@ -476,6 +477,18 @@ func (s *session) build(class string) []byte {
 		return rawMessage("headers", headersPayload([]*wire.BlockHeader{s.fabHeader(prev)}, 0))
 	case "hdrTxCount":
 		return rawMessage("headers", headersPayload([]*wire.BlockHeader{headers.MainNetRequiredHeader}, 1))
+	case "hdrBSVShort", "hdrGoodShort":
+		// twenty headers announced (and declared in the length), the first one delivered
+		first := headers.MainNetRequiredHeader
+		if class == "hdrGoodShort" {
+			first = s.fabHeader(s.tip)
+			s.tip = *first.BlockHash()
+		}
+		hs := []*wire.BlockHeader{first}
+		for i := 0; i < 19; i++ {
+			hs = append(hs, s.fabHeader(*hs[len(hs)-1].BlockHash()))
+		}
+		return rawMessage("headers", headersPayload(hs, 0))[:24+1+81]
 	}
 	panic("unknown class " + class)
 }
@@ -577,10 +590,14 @@ func (s *session) run(behIdx int) []sessDiv {
 			}
 			// barrier
 			if !eof {
+				barrier := s.d(time.Second)
+				if st.St.Deaf {
+					barrier = s.d(250 * time.Millisecond) // no answer is expected
+				}
 				if coalesced {
-					pong, eof = s.collect(bn, s.d(time.Second), out)
+					pong, eof = s.collect(bn, barrier, out)
 				} else if s.write(wireMessage(wire.NewMsgPing(bn)), s.d(2*time.Second)) {
-					pong, eof = s.collect(bn, s.d(time.Second), out)
+					pong, eof = s.collect(bn, barrier, out)
 				} else {
 					pong = false
 					_, eof = s.collect(bn, s.d(300*time.Millisecond), out)
@@ -694,14 +711,27 @@ func (s *session) run(behIdx int) []sessDiv {
 		} else {
 			if eof {
 				fail(step, phase, fmt.Sprintf("after %s: node closed the connection, spec says it stays up", st.Msg))
-			} else if !pong {
+			} else if !pong && !st.St.Deaf {
 				fail(step, phase, fmt.Sprintf("after %s: ping not answered although the connection is up", st.Msg))
+			} else if pong && st.St.Deaf {
+				fail(step, phase, fmt.Sprintf("after %s: ping answered although the rest of the announced headers is outstanding", st.Msg))
 			}
 			if fmt.Sprint(gotOut) != fmt.Sprint(want) {
 				fail(step, phase, fmt.Sprintf("after %s: node sent %v, spec says %v", st.Msg, gotOut, want))
 			}
 		}
 		if len(divs) > 0 || eof {
+			break
+		}
+		if st.St.Deaf {
+			// the node waits for the rest of the message; the peer hangs up instead: Run returns
+			s.conn.Close()
+			select {
+			case err := <-s.runDone:
+				s.runDone <- err
+			case <-time.After(s.d(4 * time.Second)):
+				fail(step, "C15", fmt.Sprintf("after %s and the peer hanging up: Run did not return", st.Msg))
+			}
 			break
 		}
 		wasReady = s.node.IsReady()
